@@ -3,6 +3,8 @@ package pokertable
 // C08 — after each hand the table pauses or deals on; it never wedges.
 
 import (
+	"time"
+
 	"github.com/weedbox/pokertable/internal/verifrt"
 	"github.com/weedbox/pokertable/open_game_manager"
 )
@@ -16,8 +18,14 @@ func VH_C08_Continue() {
 	w := vhNewWorld(n, M, 0, false)
 	te := w.te
 	st := te.table.State
-	// a tournament table (the CT / cash "table time is over" branch is outside the property)
-	te.table.Meta.Mode = CompetitionMode_MTT
+	// every mode; for CT / cash tables the table's own time limit may have run out, in which case
+	// the table reports the end of automatic dealing instead (symbolic clock, start and duration)
+	mode := verifrt.IntRange("mode", 0, 2)
+	te.table.Meta.Mode = []string{CompetitionMode_MTT, CompetitionMode_CT, CompetitionMode_Cash}[mode]
+	st.StartAt = verifrt.Int64("startAt")
+	te.table.Meta.MaxDuration = verifrt.IntRange("maxDuration", 0, 3)
+	verifrt.Assume(st.StartAt >= 0 && st.StartAt < 1<<40)
+	tableEnd := st.StartAt + int64(te.table.Meta.MaxDuration)
 	st.Status = TableStateStatus_TableGameSettled
 	// previous hand: an arbitrary subset of the players took part; the survivors are handed to continueGame
 	alive := []*TablePlayerState{}
@@ -32,9 +40,22 @@ func VH_C08_Continue() {
 	})
 	before := ogm.GetState()
 
+	t0 := time.Now().Unix()
 	err := te.continueGame(alive)
+	t1 := time.Now().Unix()
 
 	verifrt.Assert(err == nil, "continueGame succeeds")
+	if mode != 0 && t0 > tableEnd {
+		verifrt.Reach("table time over")
+		after := ogm.GetState()
+		verifrt.Assert(w.rec.autoOpenEnd == 1, "a CT / cash table whose time is over reports the end of automatic dealing once")
+		verifrt.Assert(after.GameCount == before.GameCount && len(after.Participants) == len(before.Participants) && st.Status == TableStateStatus_TableGameStandby, "and sets up no further hand")
+		verifrt.Reach("end")
+		return
+	}
+	// otherwise (tournament table, or table time not over at any clock reading during the call)
+	verifrt.Assume(mode == 0 || t1 <= tableEnd)
+	verifrt.Assert(w.rec.autoOpenEnd == 0, "no end-of-dealing report while the table's time is not over")
 	withChips := 0
 	for _, p := range st.PlayerStates {
 		if p.Bankroll > 0 {
